@@ -53,7 +53,11 @@ void hll_union_alloc<A>::update(hll_sketch_alloc<A>&& sketch) {
   if (sketch.is_empty()) return;
   if (gadget_.is_empty() && sketch.get_target_type() == HLL_8 && sketch.get_lg_config_k() <= lg_max_k_) {
     if (sketch.get_current_mode() == HLL || sketch.get_lg_config_k() == lg_max_k_) {
+      // the input becomes the gadget; what is left in sketch is the former, empty gadget and there is nothing
+      // more to merge (merging it would down-sample the new gadget to the old gadget's lg_k if that empty
+      // gadget happens to be in HLL mode, e.g. after reset() of a gadget that was started full-size)
       gadget_ = std::move(sketch);
+      return;
     }
   }
   union_impl(sketch, lg_max_k_);
